@@ -1,6 +1,7 @@
 package sim
 
 import (
+	"bufio"
 	"bytes"
 	"context"
 	"errors"
@@ -97,7 +98,20 @@ func snappyHuge(b []byte, bodyOffset int) bool {
 	return err == nil && int64(n) > simrt.AllocLimit
 }
 
-func rd(b []byte, chunk, errAt int) io.Reader { return &faultReader{data: b, chunk: chunk, errAt: errAt} }
+// rd serves the bytes through the kind of source the caller might hold: the faulty reader (chunk >= 0),
+// or — because decoders may special-case concrete reader types — a *bytes.Buffer (-1), a *bytes.Reader
+// (-2) or a bufio.Reader (-3) over the very same bytes.
+func rd(b []byte, chunk, errAt int) io.Reader {
+	switch chunk {
+	case -1:
+		return bytes.NewBuffer(append([]byte(nil), b...))
+	case -2:
+		return bytes.NewReader(b)
+	case -3:
+		return bufio.NewReaderSize(&faultReader{data: b, chunk: 5, errAt: errAt}, 16)
+	}
+	return &faultReader{data: b, chunk: chunk, errAt: errAt}
+}
 
 var c04Compressions = []primitive.Compression{primitive.CompressionNone, primitive.CompressionLz4, primitive.CompressionSnappy}
 
@@ -409,7 +423,7 @@ func (m c04Mut) apply(valid []byte) []byte {
 // that allocates the declared size first is slow and memory hungry, which the property does not forbid).
 func c04Plan(n int, ord int, huge bool, next func(int) int) []c04Mut {
 	var ms []c04Mut
-	chunkOf := func(i int) int { return []int{0, 1, 3, 0, 7, 0}[(i+ord)%6] }
+	chunkOf := func(i int) int { return []int{0, 1, -1, 3, 0, -2, 7, -3}[(i+ord)%8] }
 	add := func(m c04Mut) {
 		m.Chunk = chunkOf(len(ms))
 		m.ErrAt = -1
